@@ -21,7 +21,10 @@ def oracle(cfg, trace, residue):
     fails = []
     store = {}            # sid -> value saved (the specification: one private dict per session id)
     live = {}             # (tid, ns) -> sid
-    hist = {}             # (tid, ns) -> True when an earlier session on this transport+namespace stored something
+    hist = {}             # (tid, ns) -> session ids that stored something on this transport+namespace
+
+    def earlier_stored(key, sid):
+        return any(x != sid for x in hist.get(key, ()))
     for op, im, _ in trace:
         for tid, q in S.sent_packets(im):
             if q['type'] == 0 and isinstance(q['data'], dict):
@@ -47,16 +50,23 @@ def oracle(cfg, trace, residue):
             where = [x for x, v in live.items() if v == sid and x[1] == op['ns']]
             if where and not im['exc']:
                 want = dict(store.get(sid, {}) if isinstance(store.get(sid, {}), dict) else {})
-                known_region = hist.get(where[0]) and sid not in store and sid_is_new_on(where[0], sid, trace)
+                known_region = earlier_stored(where[0], sid) and sid not in store and sid_is_new_on(where[0], sid, trace)
                 want[op['k2']] = op['v2']
                 want[op['k']] = op['v']
                 if known_region:
                     store[sid] = copy.deepcopy(im['result'])
                 else:
-                    if not C.same(im['result'], want):
-                        fails.append((None, 'nested session() blocks: stored %r, the two blocks wrote %r' % (im['result'], want)))
+                    if not C.same_unordered(im['result'], want):
+                        if earlier_stored(where[0], sid) and sid_is_new_on(where[0], sid, trace):
+                            # the session was born with the previous session's content (known finding) and only written,
+                            # never read, so far: the inherited keys show up now
+                            fails.append((SIG, 'a new session id on a namespace re-connected on the same transport still '
+                                               'holds the previous session: stored %r, this session wrote %r' % (im['result'], want)))
+                            want = im['result']
+                        else:
+                            fails.append((None, 'nested session() blocks: stored %r, the two blocks wrote %r' % (im['result'], want)))
                     store[sid] = copy.deepcopy(want)
-                hist[where[0]] = True
+                hist.setdefault(where[0], set()).add(sid)
             continue
         if k not in ('get_session', 'save_session', 'session_block'):
             continue
@@ -72,12 +82,12 @@ def oracle(cfg, trace, residue):
             want = dict(store.get(sid, {}))
             want[op['k']] = op['v']
             store[sid] = copy.deepcopy(want)
-            hist[where[0]] = True
+            hist.setdefault(where[0], set()).add(sid)
             continue
         key = where[0]
         if k == 'save_session':
             store[sid] = copy.deepcopy(op['v'])
-            hist[key] = True
+            hist.setdefault(key, set()).add(sid)
             continue
         want = store.get(sid, {})
         if k == 'session_block':
@@ -85,16 +95,17 @@ def oracle(cfg, trace, residue):
             want[op['k']] = op['v']
             store[sid] = copy.deepcopy(want)
         got = im['result']
-        if not C.same(got, want):
+        if not C.same_unordered(got, want):
             stale = sid not in store or k == 'session_block'
-            if hist.get(key) and sid_is_new_on(key, sid, trace):
+            if earlier_stored(key, sid) and sid_is_new_on(key, sid, trace):
                 fails.append((SIG, 'a new session id on a namespace re-connected on the same transport reads the '
                                    'previous session: got %r, a fresh session has %r' % (got, want)))
                 store[sid] = copy.deepcopy(got)      # follow the implementation inside the known region
             else:
                 fails.append((None, '%s(%s, %s) returned %r, the session holds %r' % (k, sid, op['ns'], got, want)))
         if k in ('get_session', 'session_block'):
-            hist[key] = hist.get(key) or bool(store.get(sid))
+            if store.get(sid):
+                hist.setdefault(key, set()).add(sid)
     return fails
 
 
@@ -128,4 +139,4 @@ def run(ctx):
 
 
 def replay(ctx, r):
-    return S.replay_case(ctx, r)
+    return S.replay_case(ctx, r, oracle=oracle)
